@@ -608,14 +608,20 @@ def impl_mghload(case):
     p = os.path.join(tmpdir(), 'ld' + d.get('ext', '.mgh'))
     with open(p, 'wb') as f:
         f.write(gzip.compress(raw, 1) if d.get('ext') == '.mgz' else raw)
-    with warnings.catch_warnings():
-        warnings.simplefilter('ignore')
-        try:
-            with ImageOpener(p, 'rb') as fobj:
-                h = MGHHeader.from_fileobj(fobj)
-                arr = np.array(h.data_from_fileobj(fobj))
-        except Exception as e:
-            return errname(e)
+    from nibabel import imageglobals
+    was = imageglobals.logger.disabled
+    imageglobals.logger.disabled = True          # check_fix logs "Unknown MGH format version" before raising
+    try:
+        with warnings.catch_warnings():
+            warnings.simplefilter('ignore')
+            try:
+                with ImageOpener(p, 'rb') as fobj:
+                    h = MGHHeader.from_fileobj(fobj)
+                    arr = np.array(h.data_from_fileobj(fobj))
+            except Exception as e:
+                return errname(e)
+    finally:
+        imageglobals.logger.disabled = was
     dt2 = h.get_data_dtype()
     pats = np.ascontiguousarray(arr.ravel(order='F')).view(f'>u{dt2.itemsize}' if dt2.itemsize > 1 else 'u1')
     zooms = pat_of([np.asarray(x) for x in h.get_zooms()])
@@ -682,6 +688,21 @@ def geom_in_domain(d):
     return True
 
 
+def vol_float_mismatch(got, want):
+    """what the footer text (10 significant digits) must preserve of a float entry: a value that is its own
+    10-digit rendering comes back bit-exact; a single-precision value comes back to the SAME float32 (the
+    format needs 9 digits for that); any other double to 10 significant digits (|rel. error| <= 5e-10)"""
+    from fractions import Fraction
+    if float('%.10g' % want) == want:
+        return None if struct.pack('<d', got) == struct.pack('<d', want) else 'not bit-exact'
+    with np.errstate(all='ignore'):
+        if float(np.float32(want)) == want and np.float32(got).tobytes() != np.float32(want).tobytes():
+            return 'float32 value changed'
+    if abs(Fraction(got) - Fraction(want)) * 10 ** 10 > abs(Fraction(want)) * 5 * (1 + Fraction(1, 10 ** 6)):
+        return 'more than half a unit of the 10th significant digit off'
+    return None
+
+
 def same_f64(a, b):
     a, b = np.asarray(a, dtype=np.float64), np.asarray(b, dtype=np.float64)
     return a.shape == b.shape and np.array_equal(f64_bits(a), f64_bits(b))
@@ -720,8 +741,13 @@ def oracle_geom(case, out):
         if [int(x) for x in vi['volume']] != [int(x) for x in vol['volume']]:
             return f'volume_info[volume] differs: {vi["volume"]} vs {vol["volume"]}'
         for k in VEC_KEYS:
-            if not same_f64(vi[k], [float(x) for x in vol[k]]):
-                return f'volume_info[{k}] differs: {list(vi[k])} vs {vol[k]}'
+            got = np.asarray(vi[k], dtype=np.float64)
+            if got.shape != (3,):
+                return f'volume_info[{k}] has shape {got.shape}'
+            for g, x in zip(got.tolist(), vol[k]):
+                why = vol_float_mismatch(g, float(x))
+                if why:
+                    return f'volume_info[{k}] differs ({why}): {list(vi[k])} vs {vol[k]}'
     if d['meta'] and vol is None and vi is not None and len(vi):
         return 'volume_info invented for a file without footer'
     return None
@@ -886,6 +912,62 @@ def oracle_mgh(case, out):
         return f'footer not at DATA_OFFSET + data bytes (file length {len(raw)}, expected {284 + nvox * w + 20})'
     if list(struct.unpack('>3I', raw[30:42])) != list(d['zooms']):
         return 'delta field does not hold the voxel sizes'
+    saved_ras = ex['img'].header.binaryblock[42:90]
+    if raw[42:90] != saved_ras or h2.binaryblock[42:90] != saved_ras:
+        return 'Mdc / Pxyz_c bytes of the saved header did not survive the file round trip'
+    return None
+
+
+def oracle_mghload(case, out):
+    """reader side of the round trip on a file laid out by the harness's own byte builder"""
+    d = case.data
+    f = d.get('fields')
+    if not f or not f.get('valid'):
+        return None
+    if not out.startswith('ok '):
+        return f'a well-formed MGH file (dims {f["dims"]}, type {f["code"]}) was refused: {out}'
+    h, arr = case.extra['h'], case.extra['arr']
+    shape = f['dims'][:3] if f['dims'][3] == 1 else f['dims']
+    if list(arr.shape) != shape:
+        return f'loaded shape {list(arr.shape)} for dims {f["dims"]}'
+    w = arr.dtype.itemsize
+    pats = [int(x) for x in np.ascontiguousarray(arr.ravel(order='F')).view(f'>u{w}' if w > 1 else 'u1')]
+    if pats != f['data']:
+        return 'data differ from the bytes in the file'
+    ftr = pat_of([np.asarray(h[k]) for k in FTR_NAMES])
+    if ftr != f['ftr']:
+        return f'footer fields {ftr} differ from the file footer {f["ftr"]}'
+    z = pat_of([np.asarray(x) for x in h.get_zooms()])
+    if f['good']:
+        if z[:3] != f['delta'] or h.binaryblock[42:90].hex() != f['ras']:
+            return 'delta / Mdc / Pxyz_c differ from the header bytes in the file'
+    if len(z) != (4 if f['dims'][3] > 1 else 3) or (len(z) == 4 and z[3] != f['ftr'][0]):
+        return f'get_zooms {z} inconsistent with dims {f["dims"]} / TR {f["ftr"][0]}'
+    return None
+
+
+def oracle_annot2(case, out):
+    d = case.data
+    n = len(d['ctab'])
+    if not annot_in_domain(d) or not d['fill2'] or len(d['rgb']) != n:
+        return None
+    if any(not 0 <= c <= 255 for r in d['rgb'] for c in r):
+        return None
+    p1 = [pack(r) for r in d['ctab']]
+    p2 = [pack(r) for r in d['rgb']]
+    if len(set(p2)) != n or 0 in p1 or 0 in p2 or (n == 0 and d['labels']):
+        return None                    # format limits are reported by the `annot` stream
+    if not out.startswith('ok '):
+        return f'read -> recolour -> write(fill_ctab=True) -> read raised for a valid annotation: {out[-60:]}'
+    l2, c2, n2 = case.extra['res']
+    want_ctab = np.array([list(rgb) + [r[3], p] for rgb, r, p in zip(d['rgb'], d['ctab'], p2)], dtype=np.int64).reshape(n, 5)
+    if c2.shape != (n, 5) or not np.array_equal(c2, want_ctab):
+        return f'recoloured table differs: got {np.asarray(c2).tolist()[:3]} want {want_ctab.tolist()[:3]}'
+    if [bytes(x) for x in n2] != [nm.encode('utf-8') for nm in d['names']]:
+        return 'names differ after the second round trip'
+    if [int(x) for x in l2] != list(d['labels']) or case.extra['l1'] != list(d['labels']):
+        return (f'labels differ after read -> recolour -> write(fill_ctab=True) -> read: '
+                f'got {[int(x) for x in l2][:8]} want {list(d["labels"])[:8]}')
     return None
 
 
@@ -904,7 +986,7 @@ def oracle_zoom(case, out):
     return None
 
 
-ORACLE = {'geom': oracle_geom, 'morph': oracle_morph, 'annot': oracle_annot, 'mgh': oracle_mgh, 'zoom': oracle_zoom}
+ORACLE = {'mghload': oracle_mghload, 'annot2': oracle_annot2, 'geom': oracle_geom, 'morph': oracle_morph, 'annot': oracle_annot, 'mgh': oracle_mgh, 'zoom': oracle_zoom}
 
 
 def oracle(case, out):
@@ -974,6 +1056,13 @@ def _shrink_candidates(case):
         for k, nm in enumerate(d['names']):
             if len(nm) > 1:
                 yield mk_annot({**d, 'names': d['names'][:k] + [nm[:1]] + d['names'][k + 1:]}, case.stream)
+    elif op == 'annot2':
+        if len(d['labels']) > 1:
+            for i in range(len(d['labels'])):
+                yield mk_annot2({**d, 'labels': d['labels'][:i] + d['labels'][i + 1:]}, case.stream)
+        for k, nm in enumerate(d['names']):
+            if len(nm) > 1:
+                yield mk_annot2({**d, 'names': d['names'][:k] + [nm[:1]] + d['names'][k + 1:]}, case.stream)
     elif op == 'geom':
         if d.get('vol') is not None:
             yield mk_geom({**d, 'vol': None}, case.stream)
@@ -1061,7 +1150,41 @@ def rand_dec(rng):
             return s
 
 
-def rand_vol(rng):
+def rand_volfloat(rng):
+    """a footer float as a decimal string: round values, <= 10-digit decimals (bit-exact through the text),
+    single-precision values as FreeSurfer headers hold them (direction cosines of oblique volumes, off-centre
+    c_ras, non-round voxel sizes: 8-9 significant digits, > the 6 of a bare `g` format), full doubles"""
+    import math
+    r = rng.random()
+    if r < 0.25:
+        return rng.choice(['1', '0', '-1', '1e-10'])
+    if r < 0.5:
+        return rand_dec(rng)
+    if r < 0.85:
+        k = rng.randrange(4)
+        if k == 0:
+            v = math.cos(rng.uniform(0, 2 * math.pi))
+        elif k == 1:
+            v = rng.uniform(-128, 128)
+        elif k == 2:
+            v = rng.choice([0.7, 0.1, 0.9375, 1.0 / 3, 0.8203125, 1.2])
+        else:
+            v = float(f32_of([rand_f32(rng, nan_ok=False)])[0])
+        with np.errstate(all='ignore'):
+            v = float(np.float32(v))
+        if v != v or v in (float('inf'), float('-inf')):
+            v = 0.25
+        return repr(v)
+    return repr(rng.choice([rng.uniform(-1, 1), rng.uniform(-300, 300), rng.random() * 10.0 ** rng.randrange(-20, 20)]))
+
+
+def rand_vol(rng, rich=False):
+    if rich:
+        return {'head': rng.choice([[20], [2, 0, 20], [2, 0, 20]]),
+                'valid': rng.choice(['1  # volume info valid', '1']),
+                'filename': rng.choice(['../mri/filled-pretess255.mgz', 'orig.mgz']),
+                'volume': [rng.choice([256, 176, rng.randrange(1, 512)]) for _ in range(3)],
+                **{k: [rand_volfloat(rng) for _ in range(3)] for k in VEC_KEYS}}
     return {'head': rng.choice([[20], [2, 0, 20], [2, 0, 20]]),
             'valid': rng.choice(['1  # volume info valid', '0', '1', rand_text(rng, 0, 30, VAL_ALPHA, False).strip()]),
             'filename': rng.choice(['../mri/filled-pretess255.mgz', rand_text(rng, 0, 60, VAL_ALPHA, False).strip()]),
@@ -1091,7 +1214,7 @@ def gen_geom(rng, big=False):
                         rand_text(rng, 1, 300).replace('\n', ' ')])
     has_vol = rng.random() < 0.5
     return {'op': 'geom', 'meta': rng.random() < 0.8, 'stamp': stamp, 'nv': nv, 'nf': nf, 'coords': coords,
-            'faces': faces, 'vol': rand_vol(rng) if has_vol else None,
+            'faces': faces, 'vol': rand_vol(rng, rich=rng.random() < 0.5) if has_vol else None,
             'lay_c': rng.choice(LAY_W), 'lay_f': rng.choice(LAY_W), 'dt_c': rng.choice(['f8', 'f8', 'f4']),
             'dt_f': int_dt(rng, faces)}
 
@@ -1184,6 +1307,93 @@ def gen_annot(rng, zero_p=0.08, big=False, narrow=False):
     return {'op': 'annot', 'orig': rng.random() < 0.15, 'fill': fill, 'ncol': ncol, 'labels': labels,
             'ctab': ctab, 'names': names, 'lay_l': rng.choice(LAY_W), 'lay_t': rng.choice(LAY_W),
             'dt_l': int_dt(rng, labels + [len(ctab)], ('i8', 'i8', 'i4', 'i2', 'i1')), 'dt_t': dt_t}
+
+
+def gen_annot2(rng):
+    """history: write, read, recolour ctab[:, :3] of what was read (5th column goes stale), write again, read"""
+    d = gen_annot(rng, zero_p=0.0, big=rng.random() < 0.02)
+    n = len(d['ctab'])
+    if n == 0:
+        d['labels'] = []
+    if not d['fill'] and d['ncol'] == 5:
+        d['ctab'] = [r[:4] + [pack(r)] for r in d['ctab']]
+    old = {pack(r) for r in d['ctab']}
+    rgb = []
+    r = rng.random()
+    if r < 0.25 and n > 1:         # a permutation of the old colours: every stale value is ANOTHER row's fresh value
+        sh = list(range(n))
+        while sh == list(range(n)):
+            rng.shuffle(sh)
+        rgb = [d['ctab'][i][:3] for i in sh]
+    else:
+        for p in distinct_packs(rng, n, 0.0):
+            while p == 0:
+                p = rng.getrandbits(24)
+            rgb.append([p & 255, (p >> 8) & 255, (p >> 16) & 255])
+        if len({pack(x) for x in rgb}) != n:
+            rgb = [[(pack(r0) + 1 + i) & 255, ((pack(r0) + 1 + i) >> 8) & 255, ((pack(r0) + 1 + i) >> 16) & 255]
+                   for i, r0 in enumerate([[0, 0, 0]] * n)]
+    k = rng.random()
+    if k < 0.06 and n:
+        rgb = rgb[:rng.randrange(0, n)]                  # only the first rows recoloured
+    elif k < 0.10 and n:
+        rgb[rng.randrange(n)][rng.randrange(3)] = rng.choice([256, -1, 1000, 65536])
+    d.update({'op': 'annot2', 'orig': False, 'rgb': rgb, 'fill2': rng.random() < 0.85})
+    return d
+
+
+def build_mgh(dims, code, good, delta, ras, data, w, ftr_bytes, version=1, dof=0, junk=b''):
+    """an MGH file laid out by hand (big endian): 90-byte header, zeros up to 284, data, footer"""
+    hdr = struct.pack('>I4III', version, *dims, code, dof) + struct.pack('>H', good)
+    hdr += struct.pack('>3I', *delta) + bytes(ras)
+    body = b''.join(int(x).to_bytes(w, 'big') for x in data)
+    return hdr + b'\0' * (284 - len(hdr)) + body + bytes(ftr_bytes) + junk
+
+
+def gen_mghload(rng):
+    ndim4 = rng.random() < 0.5
+    dims = [rng.choice([1, 1, 2, 3]) for _ in range(3)] + [rng.choice([2, 3]) if ndim4 else 1]
+    dt = rng.choice(['u1', 'i2', 'i4', 'f4'])
+    code = {'u1': 0, 'i2': 4, 'i4': 1, 'f4': 3}[dt]
+    w = np.dtype(DT_NP[dt]).itemsize
+    n = int(np.prod(dims))
+    data = [rng.getrandbits(8 * w) for _ in range(n)]
+    delta = [rand_pos_f32(rng) for _ in range(3)]
+    ras = bytes(rng.getrandbits(8) for _ in range(48)) if rng.random() < 0.5 else \
+        ras_bytes({'zooms': delta, 'perm': rng.randrange(6), 'shape': dims[:3], 'trans': [rng.randrange(-9, 9) for _ in range(3)]})
+    ftr = [rng.choice([0, rand_pos_f32(rng), rng.getrandbits(32)]) for _ in range(5)]
+    ftr_bytes = struct.pack('>5I', *ftr)
+    good, version, junk, valid = 1, 1, b'', True
+    k = rng.choice([0, 0, 0, 1, 1, 2, 2, 3, 4, 4, 5, 6, 7, 8, 9, 10])
+    if k == 1:
+        good = 0
+    elif k == 2:                                   # footer partly / wholly absent: zero padded
+        cut = rng.randrange(0, 20)
+        ftr_bytes = ftr_bytes[:cut]
+        ftr = list(struct.unpack('>5I', ftr_bytes + b'\0' * (20 - cut)))
+    elif k == 3:                                   # data truncated
+        valid = False
+    elif k == 4:                                   # FreeSurfer writes tags after the footer
+        junk = bytes(rng.getrandbits(8) for _ in range(rng.randrange(1, 40)))
+    elif k == 5:
+        version, valid = rng.choice([0, 2, 256, 2 ** 24]), False
+    elif k == 6:
+        code, valid = rng.choice([2, 5, 6, 10, 255, 2 ** 31]), False
+    elif k == 7:
+        dims[rng.randrange(4)] = 0
+        data, valid = [], False
+    elif k == 8:
+        good = rng.choice([2, 255, 256, 65535, 32768])
+    elif k == 9:
+        valid = False
+    raw = build_mgh(dims, code, good, delta, ras, data, w, ftr_bytes, version=version, junk=junk)
+    if k == 3:
+        raw = raw[:284 + rng.randrange(0, max(1, n * w))]
+    elif k == 9:
+        raw = raw[:rng.choice([0, 1, 28, 89, 90, 91, 283])]
+    fields = {'valid': valid, 'dims': dims, 'code': code, 'good': good, 'delta': delta, 'ras': bytes(ras).hex(),
+              'ftr': ftr, 'data': data}
+    return {'op': 'mghload', 'file': raw.hex(), 'ext': rng.choice(['.mgh', '.mgh', '.mgz']), 'kind': k, 'fields': fields}
 
 
 def gen_annot_edge(rng):
@@ -1313,6 +1523,14 @@ def cases(rng, tier):
             n = int(np.prod(s))
             out.append(mk_mgh({'op': 'mgh', 'shape': s, 'dt': dt, 'data': list(range(1, n + 1)), 'zooms': [ONE, 0x40000000, 0x3F000000],
                                'perm': 0, 'trans': [0, 0, 0], 'setz': None, 'sets': [[0, 0x40200000]], 'ext': '.mgh'}))
+    # ---- single-frame (1-D / 2-D / 3-D) volumes with EVERY footer field non-zero, .mgh and .mgz
+    for s in ([3], [2, 3], [2, 3, 2], [1, 1, 1]):
+        for dt, ext in (('u1', '.mgh'), ('i2', '.mgz'), ('i4', '.mgh'), ('f4', '.mgz')):
+            n = int(np.prod(s))
+            out.append(mk_mgh({'op': 'mgh', 'shape': s, 'dt': dt, 'data': list(range(1, n + 1)),
+                               'zooms': [ONE, 0x40000000, 0x3F000000], 'perm': 1, 'trans': [1, -2, 3], 'setz': None,
+                               'sets': [[0, 0x450FC000], [1, 0x3E0EFA35], [2, 0x403D70A4], [3, 0x44898000], [4, 0x43800000]],
+                               'ext': ext}, 'mgh-footer'))
     # ---- every memory layout x every writer on one small fixed input each
     for lay in LAYOUTS:
         for lay2 in ('C', lay):
@@ -1358,6 +1576,10 @@ def cases(rng, tier):
         out.append(case_from_data(gen_mgh_edge(rng)))
     for _ in range(600 * mult):
         out.append(mk_zoom(gen_zoom(rng)))
+    for _ in range(400 * mult):
+        out.append(mk_annot2(gen_annot2(rng)))
+    for _ in range(500 * mult):
+        out.append(mk_mghload(gen_mghload(rng)))
     return out
 
 
